@@ -535,6 +535,35 @@ fn ex_p256(n: &mut Net, out: &mut RunOut, tier: Tier) {
         yesno(out, "p256trunc", matches!(r, Some(Some(_))));
         out.probe("probe.exchange.truncated_verification");
     }
+    if n.t.chance(1, 4) {
+        // the documented flow: the signer prepares (r, s) for truncation, the last rm bits are dropped (here:
+        // overwritten), the verifier rebuilds the signature. prepare_truncate also gets the delivered bytes.
+        let pd = g!(out, "call.p256.prepare_truncate", hex(&sig2), PrivateKey::prepare_truncate(&sig2));
+        out.ev(format_args!(" prepare_truncate(delivered) -> {:?}", pd.map(|x| x.map(|s| hex(&s)))));
+        let prep = g!(out, "call.p256.prepare_truncate", hex(&sig), PrivateKey::prepare_truncate(&sig)).flatten();
+        if let Some(p) = prep {
+            let rm = rm_bits(n.t, tier);
+            let mut ts = p.to_vec();
+            let nb = rm / 8;
+            for i in 0..nb {
+                ts[63 - i] = 0x55;
+            }
+            if rm % 8 != 0 {
+                ts[63 - nb] |= (0xFFu8 << (8 - rm % 8)) & 0xAA;
+            }
+            let ts2 = n.structured(out, &ts, &[(32, true), (32, false)], &bd);
+            if ts2.len() == 64 {
+                let r = g!(out, "call.p256.verify_trunc_hash", format!("rm={} {} {}", rm, hex(&ts2), hex(&hv2)), pkd.verify_trunc_hash(&ts2, rm, &hv2));
+                let again = match r {
+                    Some(Some(full)) => g!(out, "call.p256.verify_hash", hex(&full), pkd.verify_hash(&full, &hv2)),
+                    _ => None,
+                };
+                out.ev(format_args!(" prepared+truncated rm={} -> {:?} ; rebuilt verifies {:?}", rm, r.map(|x| x.map(|s| hex(&s))), again));
+                yesno(out, "p256trunc", matches!(r, Some(Some(_))));
+                out.probe("probe.exchange.truncated_verification_prepared");
+            }
+        }
+    }
 }
 
 fn ex_secp256k1(n: &mut Net, out: &mut RunOut) {
